@@ -23,7 +23,7 @@ type kind18 struct {
 func kinds18() []kind18 {
 	var out []kind18
 	for _, l := range []string{"UInt8", "Int8", "UInt64", "String", "Enum8('a'=1,'b'=2,'c'=-3)", "Enum8", "DateTime", "DateTime('UTC')", "DateTime64(3)", "DateTime64(6)",
-		"Array(String)", "Map(String, String)", "LowCardinality(String)", "FixedString(3)", "FixedString(8)", "Nullable(String)", "Array(Enum8('a'=1,'b'=2,'c'=-3))"} {
+		"Array(String)", "Map(String, String)", "LowCardinality(String)", "FixedString(3)", "FixedString(8)", "Nullable(String)", "Array(Enum8('a'=1,'b'=2,'c'=-3))", "Array(DateTime64(3))", "Array(DateTime64(9))"} {
 		e, ok := regtab.ByLabel(l)
 		if !ok {
 			panic("C18: no registry entry " + l)
@@ -74,6 +74,50 @@ func compatRef(b, t *refcol.Type) bool {
 	return true
 }
 
+// adopted18 compares the parameters that decide what the stored bytes mean (DateTime64
+// precision, FixedString width, enum definitions of a name-based target) between the
+// block's type and the type the target reports after an accepted decode.
+func adopted18(b *refcol.Type, after proto.ColumnType) string {
+	t, err := refcol.Parse(string(after))
+	if err != nil {
+		return ""
+	}
+	var walk func(b, t *refcol.Type) string
+	walk = func(b, t *refcol.Type) string {
+		if b.Base != t.Base {
+			return "" // enum <-> integer: nothing to adopt
+		}
+		switch b.Base {
+		case "DateTime64":
+			if len(b.Args) > 0 && len(t.Args) > 0 && strings.TrimSpace(b.Args[0]) != strings.TrimSpace(t.Args[0]) {
+				return fmt.Sprintf("precision %s kept although the block has precision %s", t.Args[0], b.Args[0])
+			}
+		case "Enum8", "Enum16":
+			if len(t.Args) > 0 && len(b.Args) > 0 {
+				norm := func(a []string) string {
+					var o []string
+					for _, x := range a {
+						o = append(o, strings.ReplaceAll(x, " ", ""))
+					}
+					return strings.Join(o, ",")
+				}
+				if norm(t.Args) != norm(b.Args) {
+					return "enum definition " + norm(t.Args) + " kept although the block defines " + norm(b.Args)
+				}
+			}
+		}
+		for i := range b.Elems {
+			if i < len(t.Elems) {
+				if s := walk(b.Elems[i], t.Elems[i]); s != "" {
+					return s
+				}
+			}
+		}
+		return ""
+	}
+	return walk(b, t)
+}
+
 type col18 struct {
 	name string
 	kind int
@@ -101,7 +145,7 @@ type target18 struct {
 
 // C18 — result blocks bind only to compatible targets; mismatches are errors.
 func C18(c *vk.Ctx) {
-	c.Rule("block schemas of 0..2 columns (thorough 0..3) over 18 column kinds (integers, String, name-based Enum8 with two different definitions and raw Enum8, DateTime with / without zone, DateTime64(3)/(6), Array(String), Array(Enum8), Map(String,String), LowCardinality(String), FixedString(3)/(8), Nullable(String)) x rows {0, 2} x target lists {equal kinds, every permutation, one renamed, one blank name, one extra, one missing, each position swapped for every other kind, Auto, none}; plus ordered pairs of blocks (second schema = first with one kind swapped or one renamed) decoded into the same targets. Oracle: a reference compatibility predicate written from the property text decides accept / reject; on accept every target holds exactly its own column's values and blank names are filled; on reject an error, and no target holds another column's data. distinct_nontrivial = (schema, targets, rows) cases.")
+	c.Rule("block schemas of 0..2 columns (thorough 0..3) over 20 column kinds (integers, String, name-based Enum8 with two different definitions and raw Enum8, DateTime with / without zone, DateTime64(3)/(6), Array(String), Array(Enum8), Array(DateTime64(3))/(9), Map(String,String), LowCardinality(String), FixedString(3)/(8), Nullable(String)) x rows {0, 2} x target lists {equal kinds, every permutation, one renamed, one blank name, one extra, one missing, each position swapped for every other kind, Auto, none}; plus ordered pairs of blocks (second schema = first with one kind swapped — unrelated kinds and every parameter-only sibling — or one renamed) decoded into the same typed or inferred targets. Oracle: a reference compatibility predicate written from the property text decides accept / reject; on accept every target, read back as values of the BLOCK's type, holds exactly its own column's values, reports the block's precision / enum definition as adopted, and blank names are filled; on reject an error, and no target holds another column's data. distinct_nontrivial = (schema, targets, rows) cases.")
 	kinds := kinds18()
 	maxCols := 2
 	if !c.Quick() {
@@ -246,9 +290,15 @@ func C18(c *vk.Ctx) {
 								c.Violation("C18/blank-name-not-filled", id, fmt.Sprintf("%s: target %d name is %q", desc(), i, res[i].Name), nil)
 								return
 							}
-							w, werr := reg.Wrap(tcols[i], kinds[targets[i].kind].label)
+							// the rows are read back as values of the BLOCK's type: a target that kept its own
+							// precision, zone-independent instant or enum definition shows up as different values
+							w, werr := reg.WrapAs(tcols[i], types[cl.kind], kinds[targets[i].kind].label)
 							if werr != nil {
 								continue
+							}
+							if ad := adopted18(types[cl.kind], tcols[i].Type()); ad != "" {
+								c.Violation("C18/parameters-not-adopted", id, fmt.Sprintf("%s: target %d reports type %s afterwards: %s", desc(), i, tcols[i].Type(), ad), nil)
+								return
 							}
 							if got := rowsCanon(w); !refcol.Equal(anyList(got), anyList(cl.vals)) && !(len(got) == 0 && len(cl.vals) == 0) {
 								c.Violation("C18/target-holds-wrong-values", id, fmt.Sprintf("%s: target %d holds %s, its column carries %s", desc(), i, refcol.Show(anyList(got)), refcol.Show(anyList(cl.vals))), nil)
@@ -277,6 +327,24 @@ func C18(c *vk.Ctx) {
 						return // after a rejection the decode stops
 					}
 				}
+				if mode == "auto" && accept && !endMarker && len(auto) == len(cols) {
+					for i, cl := range cols {
+						ac, ok := unwrapAuto(auto[i].Data)
+						if !ok {
+							continue
+						}
+						if ad := adopted18(types[cl.kind], ac.Type()); ad != "" {
+							c.Violation("C18/parameters-not-adopted", id, fmt.Sprintf("%s: inferred target %d reports type %s afterwards: %s", desc(), i, ac.Type(), ad), nil)
+							return
+						}
+						if w, werr := reg.WrapAs(ac, types[cl.kind], kinds[cl.kind].label); werr == nil && hasRow(ac) {
+							if got := rowsCanonAs(w, nil); got != nil && !refcol.Equal(anyList(got), anyList(cl.vals)) && !(len(got) == 0 && len(cl.vals) == 0) {
+								c.Violation("C18/target-holds-wrong-values", id, fmt.Sprintf("%s: inferred target %d holds %s, its column carries %s", desc(), i, refcol.Show(anyList(got)), refcol.Show(anyList(cl.vals))), nil)
+								return
+							}
+						}
+					}
+				}
 				if mode == "auto" && accept && bi == 0 && len(auto) != len(cols) {
 					c.Violation("C18/auto-column-count", id, fmt.Sprintf("%s: %d inferred columns", desc(), len(auto)), nil)
 					return
@@ -294,6 +362,15 @@ func C18(c *vk.Ctx) {
 	}
 
 	nk := len(kinds)
+	// second-block kinds: unrelated types and every parameter-only sibling
+	var pairKinds []int
+	for _, l := range []string{"UInt8", "String", "Enum8('a'=1,'b'=2,'c'=-3)", "FixedString(3)", "Enum8('x'=5,'y'=6)", "DateTime64(3)", "DateTime64(6)", "DateTime('UTC')", "Array(DateTime64(9))"} {
+		for i, k := range kinds {
+			if k.label == l {
+				pairKinds = append(pairKinds, i)
+			}
+		}
+	}
 	var schemas [][]int
 	var rec func(pre []int)
 	rec = func(pre []int) {
@@ -367,7 +444,7 @@ func C18(c *vk.Ctx) {
 					blank := append([]target18{}, eq...)
 					blank[i].name = ""
 					check(fmt.Sprintf("%s/pair-blank-then-renamed%d", base, i), [][]col18{cols, c2}, rows, blank, "typed")
-					for _, k := range []int{0, 3, 4, 13, 17} {
+					for _, k := range pairKinds {
 						if k == sch[i] {
 							continue
 						}
